@@ -128,6 +128,9 @@ func c17bRunInBubble(c c17bCase) (out Outcome) {
 		cl.ZKHold = true // every lookup attempt hangs until its own time-out
 	case "meta-hang":
 		cl.MetaHold = true
+	case "meta-older":
+		// (arranged after the warm-up, below)
+		cl.MinLatency = time.Millisecond
 	case "meta-error":
 		// hbase:meta answers every scan with an exception of no particular class
 		for k := 0; k < 20*forever; k++ {
@@ -143,6 +146,30 @@ func c17bRunInBubble(c c17bCase) (out Outcome) {
 		// (no read time-out in the way: a held meta scan must only be given up by the
 		// lookup attempt's own time-out, not failed over by the connection)
 		gohbase.RegionReadTimeout(24*time.Hour))
+	if c.Scenario == "meta-older" {
+		// the region the request needs is known to the client; then the table is restored from a snapshot
+		// taken before that region came to be: hbase:meta lists an OLDER region (smaller id) over its range,
+		// the cached one never comes online again, and its connection breaks
+		if err, cerr := doOp(client, context.Background(), "t", opSpec{Kind: "get", Key: c.Key, Marker: "mkwarm"}); err != nil || cerr != nil {
+			client.Close()
+			drainClient()
+			cl.Stop()
+			return viol("harness", "warm-up: %v %v", err, cerr)
+		}
+		cl.Lock()
+		old := cl.Owner2Locked("t", c.Key)
+		older := &sim.Region{Table: "t", Start: old.Start, Stop: old.Stop, ID: 500, Addr: old.Addr}
+		older.Name = sim.RegionName("t", older.Start, older.ID, false)
+		for i, r := range cl.Regions {
+			if r == old {
+				cl.Regions[i] = older
+			}
+		}
+		cl.Execs = nil // (the warm-up's lookups are not attempts)
+		cl.Unlock()
+		cl.KillConns("rs2:16020")
+		synctest.Wait()
+	}
 	ctx, cancel := context.WithCancel(context.Background())
 	defer cancel()
 	var err error
@@ -310,6 +337,14 @@ func c17bSchedule(c c17bCase, cl *sim.Cluster, execs []sim.Exec, dials []sim.Dia
 			}
 		}
 		hang = time.Duration(c.LookupTimeoutMS) * time.Millisecond
+	case "meta-older":
+		what = "hbase:meta scans (each answered with a region that is older than the one the client holds on to)"
+		free = 2
+		for _, e := range execs {
+			if e.Method == "MetaScanArrived" {
+				times = append(times, e.T)
+			}
+		}
 	case "meta-error":
 		what = "hbase:meta scans (each answered with " + c.Class + ")"
 		for _, e := range execs {
@@ -385,7 +420,7 @@ func TestC17_RetrySchedule(t *testing.T) {
 			"within 100 virtual ms of its cancellation. Non-trivial = >= 4 consecutive attempts observed; distinct by case hash")
 	Drive(t, rec, true, func(t *rapid.T) c17bCase {
 		c := c17bCase{
-			Scenario:        rapid.SampledFrom([]string{"retry-class", "retry-class", "nsre-class", "nsre-class", "conn-drop", "dial-fail", "probe-drop", "probe-fail", "meta-down", "meta-notserving", "zk-error", "zk-hang", "meta-hang", "meta-error", "meta-error"}).Draw(t, "scenario"),
+			Scenario:        rapid.SampledFrom([]string{"retry-class", "retry-class", "nsre-class", "nsre-class", "conn-drop", "dial-fail", "probe-drop", "probe-fail", "meta-down", "meta-notserving", "zk-error", "zk-hang", "meta-hang", "meta-error", "meta-error", "meta-older"}).Draw(t, "scenario"),
 			LookupTimeoutMS: rapid.SampledFrom([]int{20, 200, 1000, 30000}).Draw(t, "lookuptimeout"),
 			Batch:           rapid.SampledFrom([]int{0, 0, 1, 2, 3, 8}).Draw(t, "batch"),
 			Key:             evid.B(rapid.SampledFrom([]string{"a", "m", "z", ""}).Draw(t, "key")),
